@@ -65,3 +65,53 @@ package x509
 //@ site BuildPrecertTBS#1 as b
 //@ ensures [same-as-direct-issuer-route] result0 == b.res0 && result1 == b.res1
 //@ at b assert [no-preissuer] b.tbsData == tbsData && b.preIssuer == nil
+
+//@ func IsFatal
+//@ props C11 C02
+//@ pure
+//@ site Fatal#1 as f
+//@ ensures [nil-is-not-fatal] err == nil ==> !result
+//@ ensures [nonfatal-class-is-not-fatal] typeof(err) == NonFatalErrors ==> !result
+//@ ensures [error-list-asks-the-list] typeof(err) == *Errors ==> f.called && result == f.res
+//@ ensures [everything-else-is-fatal] err != nil && typeof(err) != NonFatalErrors && typeof(err) != *Errors ==> result
+
+//@ func (*NonFatalErrors).HasError
+//@ props C11
+//@ pure
+//@ ensures [has-error-iff-nonempty] result <==> (e != nil && len(e.Errors) > 0)
+
+//@ func (*NonFatalErrors).AddError
+//@ props C11
+//@ arith int
+//@ requires e != nil
+//@ modifies e.Errors
+//@ ensures [one-more-error] len(e.Errors) == old(len(e.Errors)) + 1
+
+//@ func parseCertificate
+//@ props C11
+//@ nobody
+//@ modifies nothing
+//@ note body not yet verified (260 lines, dozens of decoder calls): its return-coherence contract is trusted
+//@ requires in != nil
+//@ fresh result0
+//@ ensures [object-with-at-most-nonfatal-error-or-nothing-with-fatal-error] (result0 != nil && (result1 == nil || typeof(result1) == NonFatalErrors)) || (result0 == nil && result1 != nil && typeof(result1) != NonFatalErrors && typeof(result1) != *Errors)
+
+//@ func ParseCertificate
+//@ props C11 C02
+//@ arith int
+//@ site asn1.Unmarshal#1 as um
+//@ site UnmarshalWithParams#1 as lax
+//@ site parseCertificate#1 as pc
+//@ fresh result0
+//@ ensures [coherent] (result0 != nil && (result1 == nil || typeof(result1) == NonFatalErrors)) || (result0 == nil && result1 != nil && typeof(result1) != NonFatalErrors && typeof(result1) != *Errors)
+//@ ensures [strict-parse-failure-is-recorded-not-lost] um.res1 != nil && result0 != nil ==> typeof(result1) == NonFatalErrors
+//@ ensures [trailing-data-is-fatal] (lax.called ==> lax.res1 == nil) && ((!lax.called && len(um.res0) > 0) || (lax.called && len(lax.res0) > 0)) ==> result0 == nil
+//@ at lax assert [lax-retry-on-same-input-and-target] lax.b == asn1Data && lax.params == "lax" && lax.val == um.val
+
+//@ func (*Errors).FirstFatal
+//@ props C11
+//@ pure
+
+//@ func (*Errors).Fatal
+//@ props C11
+//@ pure
